@@ -270,15 +270,22 @@ class Ctx:
             self.suspects.append(detail)
 
     def run_both(self, jobs, tag, timeout=60):
+        import threading
         import time
         t0 = time.time()
-        rb = runner.run_bvh(self.binary, "session", jobs, tag, timeout=timeout)
+        box = {}
+
+        def v8():
+            box["rn"] = self.pool.run(jobs) if self.pool else [{"fatal": "node-unavailable"} for _ in jobs]
+            box["t"] = time.time()
+        th = threading.Thread(target=v8)
+        th.start()
+        rb = runner.run_bvh(self.binary, "session", jobs, tag, timeout=timeout, shards=10)
         t1 = time.time()
-        rn = self.pool.run(jobs) if self.pool else [{"fatal": "node-unavailable"} for _ in jobs]
-        t2 = time.time()
+        th.join()
         self.phase[tag + ":boa"] = round(self.phase.get(tag + ":boa", 0) + t1 - t0, 1)
-        self.phase[tag + ":v8"] = round(self.phase.get(tag + ":v8", 0) + t2 - t1, 1)
-        return rb, rn
+        self.phase[tag + ":v8(concurrent)"] = round(self.phase.get(tag + ":v8(concurrent)", 0) + box["t"] - t0, 1)
+        return rb, box["rn"]
 
 
 def short(s, n=160):
@@ -336,15 +343,18 @@ def gen_texts(r, n, avoid):
     for s in G.STRINGS + G.LONE_STRINGS:
         out.append((G.spell_string(r, s), "string-pool"))
         out.append(('"' + "".join("\\u%04x" % ord(c) for c in s) + '"', "string-pool-escaped"))
+    for u in G.LONG_UNITS:
+        for reps in (4097, 65536 // len(u) + 1):
+            out.append((G.spell_string(r, u * reps, avoid), "very-long-string"))
     for k in G.KEYS:
         out.append(("{" + G.spell_string(r, k) + ":1," + G.spell_string(r, k) + ":[2]}", "key-pool"))
     fixed = len(out)
     while len(out) < n + fixed:
         k = r.below(100)
         if k < 32:
-            out.append((G.gen_text(r, 0, 12, avoid), "grammar"))
+            out.append((G.gen_text(r, 0, 12, avoid, [r.choice([2, 5, 10, 20, 40, 80])]), "grammar"))
         elif k < 40:
-            v = G.gen_value(r, 0, 12, avoid)
+            v = G.gen_value(r, 0, 12, avoid, False, [r.choice([3, 10, 25, 60])])
             sp = G.gen_space(r, avoid)
             t = J.stringify(v, None, sp[1] if sp[3] else ("none",))
             out.append((t, "stringified"))
@@ -355,7 +365,7 @@ def gen_texts(r, n, avoid):
             m, name = G.mutate(r, t)
             out.append((m, "mut:" + name))
         elif k < 96:
-            t = G.gen_text(r, 0, 12, avoid, [r.choice([3, 8, 20, 50])])
+            t = G.gen_text(r, 0, 12, avoid, [r.choice([1, 3, 8, 20, 40])])
             m, name = G.mutate(r, t)
             if r.below(6) == 0:
                 m, name2 = G.mutate(r, m)
@@ -452,10 +462,10 @@ def stream_parse(cx, r, n, chunk=20000, per_job=250):
         done += m
         items = []
         for t, origin in raw:
-            if t in seen:
+            if hash(t) in seen:
                 cx.count("parse", "duplicate-text-skipped")
                 continue
-            seen.add(t)
+            seen.add(hash(t))
             acc, v, info = model_parse(t)
             x = J.pyjson_crosscheck(t, acc, v)
             if x:
@@ -507,9 +517,9 @@ def stream_parse(cx, r, n, chunk=20000, per_job=250):
                         continue
                     if len(t) >= 2:
                         cx.nontrivial.add(core.norm_hash(t))
-                    if len(cx.samples) < 3 and acc and info.max_depth >= 2 and len(t) < 120:
+                    if len(cx.samples) < 2 and acc and info.max_depth >= 2 and len(t) < 120:
                         cx.samples.append({"text": short(t), "boa": short(got, 300)})
-                    if len(cx.samples) < 6 and not acc and origin.startswith("mut:") and len(t) < 80 and len(cx.samples) >= 3:
+                    if len(cx.samples) < 4 and not acc and origin.startswith("mut:") and len(t) < 80 and len(cx.samples) >= 2:
                         cx.samples.append({"text": short(t), "origin": origin, "boa": got})
                     continue
                 # boa differs from the model
@@ -620,13 +630,17 @@ def stream_reviver(cx, r, n, per_job=120):
 def gen_stringify_item(cx, r):
     k = r.below(10)
     plain = k < 6
+    # JSON.stringify itself is not affected by the open findings, but the parse-back is: most values stay out of the
+    # avoided classes so that the round trip (iv) is checked; one in six may contain unpaired surrogates
+    # (well-formed-stringify escaping), and then only the stringify half is checked
+    av = () if r.below(6) == 0 else tuple(cx.avoid)
     if plain:
         if r.below(8) == 0:
-            v = G.gen_deep_value(r, r.range(8, 12))
+            v = G.gen_deep_value(r, r.range(8, 12), av)
         else:
-            v = G.gen_value(r, 0, 12, (), True, [r.choice([5, 15, 40])])
+            v = G.gen_value(r, 0, 12, av, True, [r.choice([5, 15, 40])])
     else:
-        v = G.gen_decorated(r, 0, 6, (), [r.choice([6, 15, 30])])
+        v = G.gen_decorated(r, 0, 6, av, [r.choice([6, 15, 30])])
     feats = set()
     G.value_features(v, feats)
     has_cycle = G.contains(v, lambda x: isinstance(x, J.CycleRef))
@@ -728,7 +742,7 @@ def stream_stringify(cx, r, n, per_job=100):
                     cx.nontrivial.add(core.norm_hash(it["body"]))
                 if any(x.startswith("rt ") for x in exp):
                     cx.count("roundtrip", "checked")
-                if len(cx.samples) < 8 and isinstance(it["res"], str) and 10 < len(it["res"]) < 100 and it["rep"] != "none":
+                if len(cx.samples) < 6 and isinstance(it["res"], str) and 10 < len(it["res"]) < 100 and it["rep"] != "none":
                     cx.samples.append({"case": it["desc"], "boa_text": short(it["res"], 200)})
                 continue
             if v8 is None or v8 == exp:
@@ -963,7 +977,7 @@ def run(tier, seed):
         chk.inconc("v8-unavailable")
     cx = Ctx(chk, binary, pool, avoid)
     r = Rng(seed, "c18")
-    n_texts, n_rev, n_vals = (30000, 3000, 5000) if not thorough else (400000, 40000, 80000)
+    n_texts, n_rev, n_vals = (30000, 4000, 6000) if not thorough else (800000, 80000, 160000)
     try:
         stream_fixed(cx)
         stream_parse(cx, r.fork("parse"), n_texts)
